@@ -6,6 +6,8 @@ empty text represented by the blank object becomes visible.  Texts, counts and p
 and swept through overrides; a sample is also embedded as literals."""
 import itertools
 
+import datetime as dt
+
 from .. import wbspec
 from ..findings import report
 from ..refcheck import judge_book, replay_case
@@ -45,7 +47,10 @@ SEARCHERS = ['F10', 'F11']
 JOINERS = ['F12', 'F13', 'F14', 'F15', 'F16', 'F17']
 VALUERS = ['F20', 'F21']
 BASE = {'A1': 'abc', 'B1': 'b', 'C1': 1, 'D1': 1, 'E1': 1, 'H1': 3, 'I1': 1, 'L1': '12', 'M1': '2'}
-OPERANDS = [5, -3, 0, 12345, True, 1.0, False, 0.0, 1, None, 2.0, -7.0, 2.5, 0.1, -0.25, 'x', 'Yz', '', -0.0, 1e15, 123456789012345.0]      # None = blank cell (override '' is the empty text)
+OPERANDS = [5, -3, 0, 12345, True, 1.0, False, 0.0, 1, None, 2.0, -7.0, 2.5, 0.1, -0.25, 'x', 'Yz', '', -0.0, 1e15, 123456789012345.0,
+            # doubles whose shortest Python spelling is not what a cell shows: 15 significant digits, no exponent between 1e-9 and 1e15
+            0.1 + 0.2, 1 / 3, 2 / 3, -1 / 7, 1e-5, 1.5e-7, 123456.789, 0.1 * 3, 1.1 * 1.1, 100 * 1.1, 4.35 * 100, 1e-9, 2.5e-9, 99999999999999.9, 0.000123456789012345678,
+            dt.datetime(2024, 3, 1), dt.datetime(2024, 3, 1, 12, 0), dt.datetime(2024, 3, 1, 6, 30, 15)]      # None = blank cell (override '' is the empty text)
 NUMTEXTS = ['12', ' 12 ', '-3.5', '+7', '1e3', '1E3', '.5', '007', '1.50', '0', '-0', '3.', ' -4', '1e-2', '123456789012',
             # percentages, year-month-day dates (day serial), times of day as exact binary fractions, texts that denote no number
             '50%', '12.34%', '5.6%', '250.75%', '-3%', '0.5%', '100%', '7.125%', ' 8% ', '33.333%', '0.07%', '12345.678%', '2024-01-31', '1900-03-01', '2023-12-31',
